@@ -10,6 +10,7 @@ import (
 	"os"
 	"path/filepath"
 	"runtime"
+	"runtime/debug"
 	"sort"
 	"strings"
 	"sync"
@@ -287,7 +288,7 @@ func Run[S any](t *testing.T, prop, sub string, gen func(*rapid.T) S, run func(S
 
 	exec := func(sc S, scJSON []byte) error {
 		journal(prop, sub, scJSON)
-		res, err := run(sc)
+		res, err := Protect(func() (Result, error) { return run(sc) })
 		if err == nil {
 			st.record(scJSON, sc, res)
 		}
@@ -449,4 +450,122 @@ func Bubble(t *testing.T, f func()) (err error) {
 	}()
 	<-done
 	return err
+}
+
+// ---- known findings ----
+
+type knownFinding struct {
+	Property string `json:"property"`
+	Key      string `json:"key"`
+	Status   string `json:"status"`
+	What     string `json:"what"`
+}
+
+var (
+	knownOnce sync.Once
+	knownList []knownFinding
+)
+
+// IsKnown reports whether /verif/known_findings.json lists (property,key) with status "known".
+// The file is only ever read, never written, at run time.
+func IsKnown(prop, key string) bool {
+	knownOnce.Do(func() {
+		p := os.Getenv("VERIF_KNOWN")
+		if p == "" {
+			return
+		}
+		b, err := os.ReadFile(p)
+		if err != nil {
+			return
+		}
+		var f struct {
+			Findings []knownFinding `json:"findings"`
+		}
+		if json.Unmarshal(b, &f) == nil {
+			knownList = f.Findings
+		}
+	})
+	for _, k := range knownList {
+		if k.Property == prop && k.Key == key && k.Status == "known" {
+			return true
+		}
+	}
+	return false
+}
+
+// Protect runs f and converts a panic into an error: a *Violation when the panicking frame is Cloak's own
+// code (the code under test crashed on the generated input), a plain harness error otherwise.
+func Protect(f func() (Result, error)) (res Result, err error) {
+	defer func() {
+		r := recover()
+		if r == nil {
+			return
+		}
+		if isRapidControl(r) {
+			panic(r)
+		}
+		stack := string(debug.Stack())
+		fn, file := panicSite(stack)
+		if fn != "" {
+			err = ViolateSig("panic:"+fn, "the code under test panicked: %v in %s (%s)", r, fn, file)
+		} else {
+			err = fmt.Errorf("harness: panic in harness code: %v\n%s", r, stack)
+		}
+	}()
+	return f()
+}
+
+func isRapidControl(r any) bool {
+	// rapid uses panics for Fatalf/Skip inside properties; those carry its own unexported types
+	t := fmt.Sprintf("%T", r)
+	return strings.HasPrefix(t, "rapid.") || strings.HasPrefix(t, "*rapid.")
+}
+
+// panicSite returns the innermost non-runtime frame below the panic if it belongs to Cloak's own sources.
+func panicSite(stack string) (fn, file string) {
+	lines := strings.Split(stack, "\n")
+	seenPanic := false
+	for i := 0; i+1 < len(lines); i++ {
+		l := lines[i]
+		if !seenPanic {
+			if strings.HasPrefix(l, "panic(") {
+				seenPanic = true
+				i++
+			}
+			continue
+		}
+		if strings.HasPrefix(l, "\t") || l == "" {
+			continue
+		}
+		loc := strings.TrimSpace(lines[i+1])
+		if strings.HasPrefix(l, "runtime.") || strings.HasPrefix(l, "runtime/") {
+			i++
+			continue
+		}
+		// first real frame
+		base := loc
+		if j := strings.LastIndex(base, "/"); j >= 0 {
+			base = base[j+1:]
+		}
+		if strings.HasPrefix(l, "github.com/cbeuw/Cloak/") && !strings.HasPrefix(base, "zz_verif_") && !strings.Contains(loc, "/verifkit/") {
+			name := l
+			if j := strings.LastIndex(name, "("); j > 0 {
+				name = name[:j]
+			}
+			if j := strings.Index(loc, " +0x"); j > 0 {
+				loc = loc[:j]
+			}
+			if j := strings.LastIndex(loc, "/internal/"); j >= 0 {
+				loc = loc[j+1:]
+			}
+			return name, loc
+		}
+		// panic raised inside a library called from Cloak code (e.g. bytes, ratelimit): walk up to the first Cloak frame,
+		// but give up if a harness frame comes first
+		if strings.HasPrefix(l, "github.com/cbeuw/Cloak/") {
+			return "", ""
+		}
+		i++
+	}
+	return "", ""
 }
